@@ -87,37 +87,102 @@ def check(s):
              detail=show(target, maxlen=160), necessary_for="`name` and `name.eqx` name the same file for writer and reader")
     if n_missing == 0:
         raise AnalysisError(f"{con}: no path with a missing parent directory")
-    # reader
+    # reader (one or several static paths: each is examined; the file it opens is evaluated abstractly below)
     conr = "Serializable.deserialize"
     locr = s.loc("Serializable", "deserialize")
-    pr = one(s.paths(b, "Serializable", "deserialize"), conr)
-    r = pr.ret
-    ok = isinstance(r, tuple) and r[0] == "call" and r[1] == ("global", "equinox.tree_deserialise_leaves") and len(r[2]) == 2 and not r[3]
-    s.ob("C18.3", conr, ok, "the reader is tree_deserialise_leaves(path, skeleton) with the default leaf filters", locr, key="reader-shape", detail=show(r, maxlen=200))
-    if ok:
-        s.ob("C18.2", conr, r[2][0] == ("param", "path"), "the reader hands the raw path to Equinox", locr, key="reader-path", detail=show(r[2][0]))
-        sk = r[2][1]
-        want = ("call", ("global", "equinox.filter_eval_shape"), (("param", "cls"), ("star", ("param", "*args"))), ((None, ("param", "**kwargs")),))
-        s.ob("C18.3", conr, sk == want, "the skeleton is eqx.filter_eval_shape(cls, *args, **kwargs): same class, same constructor arguments", locr, key="skeleton",
-             detail=show(sk, maxlen=200), necessary_for="loading with the same constructor arguments restores the same tree structure")
-    # abstract evaluation of the file-name agreement (suffix domain {"", ".eqx"})
+    rpaths = live(s.paths(b, "Serializable", "deserialize"))
+    if not rpaths:
+        raise AnalysisError(f"{conr}: no non-raising path")
+    for pr in rpaths:
+        r = pr.ret
+        ok = isinstance(r, tuple) and r[0] == "call" and r[1] == ("global", "equinox.tree_deserialise_leaves") and len(r[2]) == 2 and not r[3]
+        s.ob("C18.3", conr, ok, "the reader is tree_deserialise_leaves(path, skeleton) with the default leaf filters", locr, key="reader-shape", detail=show(r, maxlen=200))
+        if ok:
+            sk = r[2][1]
+            want = ("call", ("global", "equinox.filter_eval_shape"), (("param", "cls"), ("star", ("param", "*args"))), ((None, ("param", "**kwargs")),))
+            s.ob("C18.3", conr, sk == want, "the skeleton is eqx.filter_eval_shape(cls, *args, **kwargs): same class, same constructor arguments", locr, key="skeleton",
+                 detail=show(sk, maxlen=200), necessary_for="loading with the same constructor arguments restores the same tree structure")
+    # abstract evaluation of the file-name agreement over the suffix domain. The writer's escape `no_suffix=True` keeps a foreign
+    # suffix; with the default flag a foreign suffix is rewritten by the writer only (the reader then fails loudly) -- that
+    # combination is outside the spellings the property names and is not evaluated.
     fact = equinox_suffix_rule()
     if fact is False:
         raise AnalysisError("equinox._serialisation._with_suffix no longer appends .eqx exactly to suffix-less paths: the frozen fact of C18.2 is stale")
     s.control("Equinox suffix rule cross-checked against its source" if fact else "Equinox source not found: suffix rule taken as frozen fact")
-    if table.get(True) and table.get(False):
-        def eqx_rule(suf):
-            return ".eqx" if suf == "" else suf
-        agree = True
-        rows = []
-        for suf in ("", ".eqx"):
-            for no_suffix in (False, True):
-                test = (suf != ".eqx") and not no_suffix
-                written = eqx_rule(".eqx" if test else suf)
-                read = eqx_rule(suf)
-                rows.append(f"suffix={suf!r} no_suffix={no_suffix}: writer {written!r} reader {read!r}")
-                agree = agree and written == read
-        s.ob("C18.2", "writer/reader", agree, "for the spellings `name` and `name.eqx` writer and reader resolve to the same file", loc, key="suffix-agreement", detail="; ".join(rows))
+
+    def eqx_rule(suf):
+        return ".eqx" if suf == "" else suf
+
+    PATHS = (("param", "path"), P0)
+
+    def ev_bool(t, suf, flags):
+        if isinstance(t, tuple) and t:
+            if t[0] == "cmp" and t[1] in ("Eq", "NotEq") and isinstance(t[2], tuple) and t[2][0] == "attr" and t[2][2] == "suffix" and t[2][1] in PATHS \
+                    and isinstance(t[3], tuple) and t[3][0] == "const" and isinstance(t[3][1], str):
+                return (suf == t[3][1]) == (t[1] == "Eq")
+            if t[0] == "un" and t[1] == "Not":
+                v = ev_bool(t[2], suf, flags)
+                return None if v is None else not v
+            if t[0] == "boolop":
+                vals = [ev_bool(x, suf, flags) for x in t[2]]
+                if None in vals:
+                    return None
+                return all(vals) if t[1] == "And" else any(vals)
+            if t[0] == "param" and t[1] in flags:
+                return flags[t[1]]
+            if t == TRUE or t == FALSE:
+                return t == TRUE
+        return None
+
+    def ev_target(t, suf):
+        if t in PATHS:
+            return suf
+        if isinstance(t, tuple) and t and t[0] == "call" and isinstance(t[1], tuple) and t[1][0] == "attr" and t[1][2] == "with_suffix" and t[1][1] in PATHS \
+                and len(t[2]) == 1 and t[2][0][0] == "const":
+            return t[2][0][1]
+        if isinstance(t, tuple) and t and t[0] == "call" and t[1] == ("global", "pathlib.Path") and len(t[2]) == 1:
+            return ev_target(t[2][0], suf)
+        return None
+
+    def opened(paths_, target_of, suf, flags):
+        """suffix of the file a side touches for this spelling, or a reason string when it cannot be named"""
+        hits = []
+        for p_ in paths_:
+            vals = [(ev_bool(t, suf, flags), v) for t, v in p_.conds if any(isinstance(x, tuple) and x and x[0] == "attr" and x[2] == "suffix" for x in walk(t))
+                    or any(x == ("param", "no_suffix") for x in walk(t))]
+            if any(a is None for a, _ in vals):
+                return None, "a path condition on the suffix could not be evaluated"
+            if all(a == v for a, v in vals):
+                hits.append(p_)
+        if len({id(h) for h in hits}) == 0:
+            return None, "no path applies"
+        outs = set()
+        for h in hits:
+            tg = target_of(h)
+            outs.add(ev_target(tg, suf) if tg is not None else None)
+        if len(outs) != 1 or None in outs:
+            return None, "the path handed to Equinox is not the raw path or path.with_suffix(<literal>)"
+        return eqx_rule(outs.pop()), ""
+
+    def wtarget(p_):
+        ws = [e for e in p_.effects if isinstance(e[1], tuple) and e[1][0] == "call" and e[1][1] == ("global", "equinox.tree_serialise_leaves")]
+        return ws[0][1][2][0] if len(ws) == 1 and ws[0][1][2] else None
+
+    def rtarget(p_):
+        r_ = p_.ret
+        return r_[2][0] if isinstance(r_, tuple) and r_[0] == "call" and r_[1] == ("global", "equinox.tree_deserialise_leaves") and r_[2] else None
+
+    rows = []
+    agree = True
+    for suf, no_suffix in (("", False), ("", True), (".eqx", False), (".eqx", True), (".ckpt", True)):
+        wfile, wwhy = opened(paths, wtarget, suf, {"no_suffix": no_suffix})
+        rfile, rwhy = opened(rpaths, rtarget, suf, {})
+        rows.append(f"name{suf} no_suffix={no_suffix}: writer {wfile!r}{' (' + wwhy + ')' if wwhy else ''} reader {rfile!r}{' (' + rwhy + ')' if rwhy else ''}")
+        ok_ = wfile is not None and wfile == rfile
+        agree = agree and ok_
+        s.ob("C18.2", f"writer/reader[name{suf},no_suffix={no_suffix}]", ok_, "writer and reader resolve this spelling to the same file (after Equinox's own suffix rule)", locr,
+             key=f"suffix-agreement{suf or '-none'}-{int(no_suffix)}", detail=rows[-1],
+             necessary_for="a saved policy is found again under the spelling it was saved with (`name`, `name.eqx`, or a foreign suffix kept by no_suffix=True)")
     # ---------------------------------------------------------------- C18.4
     ser = P.cls("Serializable")
     pols = [c for c in P.subclasses("AbstractPolicy", strict=False)]
@@ -131,5 +196,5 @@ def check(s):
                 s.ob("C18.4", f"{ci.name}.{f.name}", not f.static, "an array-annotated policy field is not static (it is serialised)", P.loc(ci.module, ci.node), key="static-array",
                      detail=ann, necessary_for="every parameter is restored")
     s.notes.append(f"C18.4: {len(pols)} policy classes, {n} array-annotated fields")
-    for r_, n_ in (("C18.1", 2), ("C18.2", 10), ("C18.3", 10), ("C18.4", 1)):
+    for r_, n_ in (("C18.1", 2), ("C18.2", 13), ("C18.3", 10), ("C18.4", 1)):
         s.floor(r_, n_)
